@@ -292,6 +292,14 @@ func cmdCheck(args []string) int {
 			}
 		}
 	}
+	for _, k := range loadKnown(*verif) {
+		if k.Status == "open" && k.Property == *prop {
+			noRetry[k.Obligation] = true
+			for _, a := range k.Also {
+				noRetry[a] = true
+			}
+		}
+	}
 	results := solveAll(dir, vcs, timeout, *tier == "thorough", *workers)
 
 	known := loadKnown(*verif)
